@@ -172,7 +172,11 @@ def compare(stream, chunks, api, fire, skip):
 
 def chunkings(stream, rnd, with_timeouts=True):
     yield [stream]
-    yield [stream[i:i + 1] for i in range(len(stream))]
+    if len(stream) <= 4096:
+        yield [stream[i:i + 1] for i in range(len(stream))]
+    else:
+        # long streams: single bytes through the first header and a little payload, then odd-sized blocks
+        yield [stream[i:i + 1] for i in range(40)] + [stream[i:i + 4099] for i in range(40, len(stream), 4099)]
     if len(stream) > 6:
         # several short reads followed by a timeout inside one field, then the rest (retry after a multi-chunk partial read)
         a, b = rnd.randint(1, min(len(stream) - 3, 12)), rnd.randint(1, 3)
@@ -210,9 +214,9 @@ def gen_stream(rnd, hint=None):
                 out += S.rfc_encode(1, 9, bytes(rnd.randrange(256) for _ in range(rnd.choice([0, 1, 124, 125]))))
         return out + S.rfc_encode(1, 2, b"\x00\xff")
     if special < 0.12:
-        # long masked frames across the 16-bit / 64-bit boundary (unmasking of long payloads), back to back
+        # long masked frames: 16-bit lengths with and without the top bit, the 16-bit / 64-bit boundary, back to back
         out = b""
-        for ln in rnd.sample([65535, 65536, 65537, 70001, 131075], 2):
+        for ln in rnd.sample([65535, 65536, 65537, 70001, 131075, 32767, 32768, 40000, 256, 65534], 2):
             key = bytes(rnd.randrange(1, 256) for _ in range(4))
             out += S.rfc_encode(1, 2, bytes((i * 7 + ln) % 251 for i in range(ln)), key)
         return out + S.rfc_encode(1, 1, b"end")
@@ -241,11 +245,27 @@ def gen_stream(rnd, hint=None):
     return b"".join(frames)
 
 
+def boundary_streams():
+    """deterministic streams at the boundaries of the frame format; tried before the random ones on every search."""
+    out = []
+    pat = lambda ln: bytes((i * 7 + ln) % 251 for i in range(ln))
+    for ln in (125, 126, 127, 255, 256, 32767, 32768, 40000, 65535, 65536, 65537):
+        out.append(S.rfc_encode(1, 2, pat(ln)) + S.rfc_encode(1, 1, b"end"))
+        out.append(S.rfc_encode(1, 2, pat(ln), b"\x01\x02\x03\x04") + S.rfc_encode(1, 1, b"end"))
+    for ln in (0, 1, 124, 125):
+        out.append(S.rfc_encode(1, 9, pat(ln)) + S.rfc_encode(1, 10, pat(ln)) + S.rfc_encode(1, 1, b"after"))
+    out.append(S.rfc_encode(0, 1, b"a\xc3") + S.rfc_encode(1, 9, b"p") + S.rfc_encode(0, 0, b"\xa9") + S.rfc_encode(1, 0, b"") + S.rfc_encode(1, 2, b"\x00"))
+    out.append(S.rfc_encode(0, 2, b"") + S.rfc_encode(0, 0, b"x") + S.rfc_encode(1, 0, b"y") + S.rfc_encode(1, 8, b"\x03\xe8bye"))
+    out.append(S.rfc_encode(1, 1, b"ok") + S.rfc_encode(1, 8, b"\x03\xe8") + S.rfc_encode(1, 8, b"\x03\xe9"))
+    return out
+
+
 def search(seed, budget, hint=None, apis=("recv", "recv_data", "recv_data_ctl", "recv_data_frame", "recv_frame")):
     rnd = random.Random(seed)
     tried = 0
-    while tried < budget:
-        stream = gen_stream(rnd, hint)
+    fixed = boundary_streams()
+    while tried < budget or fixed:
+        stream = fixed.pop(0) if fixed else gen_stream(rnd, hint)
         for api in apis:
             for fire in (False, True):
                 for skip in (False, True):
